@@ -95,7 +95,14 @@ def generate(seed, tier):
     S = core.Streams(seed)
     fam = S['swarm'].choice(['closed', 'closed', 'closed_fin', 'pc', 'capitalists', 'federated', 'multi_currency',
                              'multi_currency_supply'])
-    ops, info = econgen.gen_program(seed, family=fam, tight=S['swarm'].random() < 0.8, T=S['knobs'].randint(2, 4))
+    names = {}
+    if S['swarm'].random() < 0.4:
+        # non-default good / labour names (through the constructors' name parameters)
+        for k, v in (('LAB', 'WORK'), ('GOOD', 'WIDGET')):
+            if S['swarm'].random() < 0.6:
+                names[k] = v
+    ops, info = econgen.gen_program(seed, family=fam, tight=S['swarm'].random() < 0.8, T=S['knobs'].randint(2, 4),
+                                    names=names)
     for i, op in enumerate(ops):
         op['u'] = i
     order = linear_extension(ops, S['schedule'])
